@@ -108,7 +108,7 @@ def native_replay_of_model(ob, tmp):
         return None, "no native harness / no model bindings"
     payload = {"native": ob["native"], "bindings": ob["bindings"], "contract": ob.get("contract"),
                "ensures": ob.get("ensures", []), "requires": ob.get("requires", []),
-               "raises": ob.get("raises", {})}
+               "raises": ob.get("raises", {}), "raises_iff": ob.get("raises_iff", {})}
     pf = os.path.join(tmp, "model.json")
     json.dump(payload, open(pf, "w"))
     rc, so, se = sh([VENV_PY, os.path.join(ROOT, "bcc", "replay_fn.py"), pf], 60,
